@@ -314,6 +314,11 @@ def exec_repro(case, d):
 # ............................................................... C11 pause
 def exec_pause(case, d):
     sc = case['sc']
+    if (sc.get('faults') or {}).get('overrun'):
+        # 'keep the clock running after completion' is a fault of plain runs; here both the reference
+        # and the paused runs stop at completion
+        sc = copy.deepcopy(sc)
+        sc['faults'].pop('overrun', None)
     ref = sut.run_scenario(sc, d, monitor='real', want_tables=True)
     out = _out(ref)
     viol = out['violations']
